@@ -30,6 +30,9 @@ EXPORT_TAILS = [
     [{"op": "sky_within", "pix": 0}, {"op": "export_moc", "via": "mimas"}],
     [{"op": "save_load"}, {"op": "export_moc"}, {"op": "save_load"}, {"op": "export_reg"}],
     [{"op": "get_area"}, {"op": "export_moc"}],
+    # the .mim file on disk is what load returns, whatever happened to objects loaded from it before
+    [{"op": "save_file"}, {"op": "load_file"}, {"op": "add_pixels", "level": 1, "pix": [0]}, {"op": "load_file"},
+     {"op": "export_moc", "via": "mimas"}, {"op": "export_reg"}],
 ]
 
 
